@@ -1,6 +1,7 @@
 """Fixture classes for the type universe U (DESIGN 3).  Importable in both worlds."""
 
 import dataclasses
+import datetime
 import enum
 import typing as t
 
@@ -277,3 +278,31 @@ type JsonLike = "int | str | list[JsonLike]"
 IntAliasTE = t.TypeAliasType("IntAliasTE", int)
 IntValue = t.TypeAliasType("IntValue", int)
 RecAlias = t.TypeAliasType("RecAlias", "dict[str, RecAlias | IntValue]")
+OptRec = t.TypeAliasType("OptRec", "t.Optional[dict[str, OptRec]]")  # a recursive alias whose value is a union
+
+
+@dataclasses.dataclass
+class Order:  # a computed field that the constructor does not take
+    qty: int
+    price: int
+    total: int = dataclasses.field(init=False, default=0)
+
+    def __post_init__(self):
+        self.total = self.qty * self.price
+
+
+@dataclasses.dataclass
+class Invoice:
+    lines: list[Order]
+
+
+@dataclasses.dataclass
+class WithMeta:  # a bare (unsubscripted) mapping member
+    name: str
+    meta: dict
+
+
+@dataclasses.dataclass
+class NFHolder:  # optional members written None-first (their __args__ start with NoneType)
+    when: None | datetime.date = None
+    who: t.Union[None, FPoint] = None
